@@ -88,14 +88,16 @@ CHECKS = {
 PENDING_REASON = "check not built yet in this session (planned: Lean model + proof + correspondence, see DESIGN.md work order); not claimed until its check exists"
 
 
-GEN = {"C01": "gen_monitor_shape", "C06": "gen_clamp_eq, gen_floor_eq", "C08": "gen_linear_eq, gen_relsupply_eq", "C09": "gen_loop_shapes",
+GEN = {"C01": "gen_monitor_shape", "C06": "gen_clamp_eq, gen_floor_eq, gen_clamp_demand_eq, gen_write_eq, gen_read_eq, gen_ok_iff",
+       "C07": "gen_shares_uniform, gen_shares_weighted, gen_supply, gen_init, gen_fitness_uniform, gen_fitness_weighted, gen_reads_stored",
+       "C08": "gen_linear_eq, gen_relsupply_eq, gen_switch_select_eq, gen_get_rule_eq, gen_shapes", "C09": "gen_loop_shapes",
        "C12": "gen_guard_shape", "C13": "gen_dispatch_eq", "C15": "gen_adjust_eq", "C17": "gen_escape_key, gen_escape_name, gen_escape_field"}
 
 
 def main():
     for pid, names in GEN.items():
         ref, tech, text, note = CHECKS[pid]
-        CHECKS[pid] = (ref, tech + " + model text regenerated from the source on every run (harness/vh/translate.py -> Generated/Src.lean) "
+        CHECKS[pid] = (ref, tech + " + model text regenerated from the source on every run (harness/vh/translate.py -> Generated/Src*.lean) "
                        "with kernel-checked theorems equating it with the hand-written model (%s)" % names, text, note)
     props = [json.loads(l) for l in open(os.path.join(ROOT, "properties.jsonl"))]
     checks, na = [], []
